@@ -45,7 +45,7 @@ MANIFEST = dict(
     technique="Lean 4 proofs (refinement of the literal index/insert/extend algorithm to a declarative tree, list lemmas, mutual "
               "structural induction through C07/C09/C10) + differential correspondence check with exhaustive small scopes",
 )
-PROP_FILES = ["HtmlVerif/Props/C11.lean", "HtmlVerif/Props/C11TextDoc.lean", "HtmlVerif/Props/ConstsDoc.lean"]
+PROP_FILES = ["HtmlVerif/Props/C11.lean", "HtmlVerif/Props/C11TextDoc.lean", "HtmlVerif/Props/ConstsDoc.lean", "HtmlVerif/Props/SrcC12.lean"]
 
 LPS = [None, "", "lib", "a/b", "a/b/"]
 KWS = [
@@ -514,6 +514,7 @@ def run(tier: str) -> int:
     ck.holds_checked += n_or
     phase["python_oracle"] = round(time.time() - t1, 1)
     t1 = time.time()
+    ck.add_src(['HTMLDependency_as_html_tags'])
     ck.correspond(holds=True)
     phase["model_and_statement"] = round(time.time() - t1, 1)
     ck.extra_cov["phase_s"] = phase
